@@ -206,14 +206,14 @@ priqInsert(PriQ pq, PriQKey key, PriQElt entry)
 PriQElt
 priqPeekMin(PriQ pq, PriQKey *pkey)
 {
-	if (pq->size == 0) bug("Cannot take min of empty priority queue.");
+	if (pq->argc == 0) bug("Cannot take min of empty priority queue.");
 	return heapPeekMin(pq->argv, pkey);
 }
 
 PriQElt
 priqExtractMin(PriQ pq, PriQKey *pkey)
 {
-	if (pq->size == 0) bug("Cannot take min of empty priority queue.");
+	if (pq->argc == 0) bug("Cannot take min of empty priority queue.");
 	return heapExtractMin(pq->argv, pq->argc--, pkey);
 }
 
